@@ -448,9 +448,11 @@ def life_after_crash(rep, tier, rng, prop, h, meta, lines, tags, root, compare_m
         ncalls = len(calls)
         cuts = enumerate_cuts(rng, calls, 10**6)
         pri = [c for c in cuts if c[1] > 0] + [c for c in cuts if c[1] == 0 and c[0] < ncalls and calls[c[0]][0] in "uc"]
+        # between two creations of one merge output pair (data / hint), and right before the first unlink
+        pairs = [c for c in cuts if c[1] == 0 and 0 < c[0] < ncalls and calls[c[0]][0] == "c" and calls[c[0] - 1][0] == "c" and calls[c[0]][3:] == calls[c[0] - 1][3:]]
         if not pri:
             return []
-        (i, b) = rng.choice(pri)
+        (i, b) = rng.choice(pairs) if pairs and rng.random() < 0.5 else rng.choice(pri)
         ks = meta["keys"]
         cont = []
         for n, k in enumerate(ks[:3]):
@@ -546,8 +548,10 @@ def run_cut_property(rep, tier, seed, prop, loss):
         finally:
             pair.close()
         if not loss and not any(p[6] is None for p in probs):
-            for _ in range(2 if tier == "quick" else 6):
+            for _ in range((2 if tier == "quick" else 6) if not broken else 12):
                 probs += life_after_crash(rep, tier, rng, prop, h, meta, lines, tags, root, compare_model=not broken)
+                if any(p[0] == "oracle" and p[6] is None for p in probs):
+                    break
         if broken:
             probs = [p for p in probs if p[0] == "oracle" and p[6] is None][:1]
         for p in probs:
